@@ -478,6 +478,25 @@ def p_script_alter(c):
         except Exception:
             return True, "refused", "refused"
         ok = not accepts(cbb, s, qx)
+        if ok:
+            # the same question on ONE live ControlBlock object that has already been asked about the genuine
+            # script (and, second object, the other way round): the answer may not depend on earlier queries
+            try:
+                from buidl.taproot import ControlBlock
+                good = Script.parse(raw=unx(c["raw"]))
+                cb = ControlBlock.parse(cbb)
+                e0 = cb.external_pubkey(good)
+                first_ok = e0.parity == cb.parity and e0.xonly() == qx
+                e1 = cb.external_pubkey(s)
+                if first_ok and e1.parity == cb.parity and e1.xonly() == qx:
+                    return False, "accepted on a control block object already used for the genuine script", "refused"
+                cb2 = ControlBlock.parse(cbb)
+                cb2.external_pubkey(s)
+                e2 = cb2.external_pubkey(good)
+                if first_ok and not (e2.parity == cb2.parity and e2.xonly() == qx):
+                    return False, "genuine script refused after an altered one was asked on the same object", "accepted"
+            except Exception:
+                pass
     return ok, "accepted" if not ok else "refused", "refused"
 
 
